@@ -166,6 +166,27 @@ def book_absorb(repo: Repo) -> List[Ob]:
              obs.append(bad("BOOK-absorb", fi, key, P, n, f"`{blk_src}` is multiplied into the new product space but its previous owner keeps it: the subsystem's state now lives in two places")))
     if k < 5:
         raise AnalysisError(f"BOOK-absorb: {k} absorption sites (floor 5)")
+    # an envelope's stored state is absorbed once per call: inside the loop over the requested subsystems both members of one
+    # envelope can appear, and their indices are only refreshed at the end – the absorbing branch must itself exclude a member
+    # whose envelope was already taken in this call (it is in the order list / a set of absorbed envelopes by then)
+    for loop in [x for x in walk_no_nested(fi.node) if isinstance(x, ast.For)]:
+        for br in [y for y in loop.body if isinstance(y, ast.If)]:
+            takes = [a for a in ast.walk(br) if isinstance(a, ast.Assign) and len(a.targets) == 1 and src(a.targets[0]).endswith(".envelope.state")
+                     and isinstance(a.value, ast.Constant) and a.value.value is None]
+            if not takes:
+                continue
+            lv_ = src(loop.target)
+            accs = {method_call(c)[0].id for c in ast.walk(loop) if isinstance(c, ast.Call) and method_call(c) and method_call(c)[1] in ("append", "extend", "add")
+                    and isinstance(method_call(c)[0], ast.Name)}
+            t = br.test
+            once = any(isinstance(g, (ast.GeneratorExp, ast.ListComp)) and isinstance(g.generators[0].iter, ast.Name) and g.generators[0].iter.id in accs
+                       and isinstance(g.elt, ast.Compare) and isinstance(g.elt.ops[0], (ast.Is, ast.IsNot)) and lv_ in src(g.elt) for g in ast.walk(t))
+            once = once or any(isinstance(c, ast.Compare) and isinstance(c.ops[0], (ast.Is, ast.IsNot)) and ".envelope.state" in src(c) and "None" in src(c) for c in ast.walk(t))
+            once = once or any(isinstance(c, ast.Compare) and isinstance(c.ops[0], ast.NotIn) and "id(" in src(c.left) for c in ast.walk(t))
+            (obs.append(ok("BOOK-absorb", fi, "envelope-absorbed-once", P + ("C03", "C17"), br, "a member whose envelope was already absorbed in this call is skipped")) if once else
+             obs.append(bad("BOOK-absorb", fi, "envelope-absorbed-once", P + ("C03", "C17"), br,
+                            "both members of one combined envelope may be requested together: the second one still carries its integer index (indices are refreshed at the end), enters the "
+                            "absorbing branch again and fails on the envelope state that was just taken – after the product spaces were emptied and the envelope state dropped")))
     # Envelope.combine: both members are extracted in the branch that builds the joint state
     ec = repo.func("Envelope.combine")
     for br in [x for x in walk_no_nested(ec.node) if isinstance(x, ast.If)]:
